@@ -18,6 +18,9 @@ from .core import case_hash, Violation, jsonable
 from . import findings
 
 HERE = os.path.dirname(os.path.dirname(os.path.abspath(__file__)))
+# KV_OUT redirects evidence/ and replays/ (used only by the sensitivity protocol so that runs against a scratch copy of
+# the repository do not overwrite the evidence of runs against /repo)
+OUT = os.environ.get("KV_OUT") or HERE
 
 
 def child_env():
@@ -155,7 +158,7 @@ def conclude(mod, pid, tier, seed, nshards, results, wall):
     # replay files
     vlines = []
     if uniq:
-        rdir = os.path.join(HERE, "replays", pid)
+        rdir = os.path.join(OUT, "replays", pid)
         os.makedirs(rdir, exist_ok=True)
         for v in uniq:
             path = os.path.join(rdir, case_hash([v["case"], v["violation"]["clause"]]) + ".json")
@@ -198,8 +201,8 @@ def conclude(mod, pid, tier, seed, nshards, results, wall):
         "wall_s": round(wall, 2),
         "violations": len(uniq),
     }
-    os.makedirs(os.path.join(HERE, "evidence"), exist_ok=True)
-    with open(os.path.join(HERE, "evidence", f"{pid}.json"), "w") as f:
+    os.makedirs(os.path.join(OUT, "evidence"), exist_ok=True)
+    with open(os.path.join(OUT, "evidence", f"{pid}.json"), "w") as f:
         json.dump(ev, f, indent=1)
     print(f"{pid} tier={tier} seed={seed}: {evaluations} evaluations, {len(nontrivial)} distinct non-trivial, "
           f"{len(uniq)} violation(s), {sum(known.values())} known-finding matches, {wall:.1f}s")
